@@ -19,7 +19,11 @@ Definition crow_i (n : nat) (fut : list bool) (i : nat) (r : crow) : crow := {| 
 Definition slp_lp (P : lp) (fut : list bool) (cs : list vec) : lp :=
   let n := nvars P in
   let S1 := inject_Z (Z.of_nat (S (List.length cs))) in          (* nS + 1 *)
-  let c0 := map (fun p => if (fst p : bool) then Qred (snd p / S1) else snd p) (combine fut (lp_c P)) in
+  (* future variables: the original sample's share; present variables: the mean over all samples (the same in all of them unless the
+     variable reaches into the future, e.g. a block order or a coarser asset frequency) *)
+  let c0 := map (fun jp => let j := fst jp in let f := fst (snd jp) in let v := snd (snd jp) in
+                           if (f : bool) then Qred (v / S1) else Qred ((v + qsum (map (fun c => nth j c 0) cs)) / S1))
+                (combine (seq 0 n) (combine fut (lp_c P))) in
   {| lp_c := c0 ++ flat_map (fun c => map (fun v => Qred (v / S1)) (sel_fut fut c)) cs;
      lp_l := lp_l P ++ flat_map (fun _ => sel_fut fut (lp_l P)) cs;
      lp_u := lp_u P ++ flat_map (fun _ => sel_fut fut (lp_u P)) cs;
